@@ -192,6 +192,14 @@ const fn power(q: i32) -> i32 {
     (q.wrapping_mul(152_170 + 65536) >> 16) + 63
 }
 
+/// Verification hook (off unless built with `--cfg lexical_verif`): the private `power`.
+#[cfg(lexical_verif)]
+#[doc(hidden)]
+#[must_use]
+pub const fn verif_power(q: i32) -> i32 {
+    power(q)
+}
+
 #[inline(always)]
 const fn full_multiplication(a: u64, b: u64) -> (u64, u64) {
     let r = (a as u128) * (b as u128);
